@@ -3,10 +3,15 @@
    stay the extracted inductive types.  No Extract Constant / Extract Inductive. *)
 From Coq Require Import ExtrOcamlBasic List NArith ZArith.
 From Coq.Strings Require Import Byte.
-From GM Require Import Codec.Packet Misc.KeepAlive.
+From GM Require Import Codec.Packet Misc.KeepAlive Misc.Engine Misc.Dispatch Misc.PktMisc.
 Extraction Language OCaml.
 Separate Extraction
   Datatypes.length
   Byte.to_N Byte.of_N N.of_nat N.to_nat
   Packet.packet_eqb Packet.get_id Packet.type_code Packet.type_of_code Packet.ptype_of
-  KeepAlive.connect_settings KeepAlive.eff_count KeepAlive.one_and_a_half KeepAlive.eff_keep_alive.
+  KeepAlive.connect_settings KeepAlive.eff_count KeepAlive.one_and_a_half KeepAlive.eff_keep_alive
+  Engine.erun Engine.eaccepted Engine.e_init Engine.engine_clauses
+  Dispatch.dial_outcome Dispatch.launch_outcome Dispatch.reaches Dispatch.server_shape Dispatch.default_port
+  Dispatch.no_ports Dispatch.all_carriers
+  PktMisc.qos_successful PktMisc.id_valid PktMisc.connack_valid PktMisc.connack_string PktMisc.type_valid PktMisc.type_string
+  PktMisc.message_copy PktMisc.message_string Packet.message_eqb.
